@@ -4,6 +4,7 @@ import json
 from collections.abc import Sequence
 from typing import TYPE_CHECKING, Any, Literal, Optional
 
+import duckdb
 import numpy as np
 import snowflake.connector.errors
 from duckdb import DuckDBPyConnection
@@ -77,7 +78,14 @@ def write_pandas(
 
         conn.cursor().execute(f"CREATE TABLE IF NOT EXISTS {name} ({','.join(cols)})")
 
-    count = _insert_df(conn._duck_conn, df, name)  # noqa: SLF001
+    try:
+        count = _insert_df(conn._duck_conn, df, name)  # noqa: SLF001
+    except duckdb.BinderException as e:
+        # the dataframe is inserted through the duckdb connection directly: translate like cursor._execute does
+        raise snowflake.connector.errors.ProgrammingError(msg=e.args[0], errno=2043, sqlstate="02000") from None
+    except duckdb.CatalogException as e:
+        msg = str(e.args[0]).split("\n")[0]
+        raise snowflake.connector.errors.ProgrammingError(msg=msg, errno=2003, sqlstate="42S02") from None
 
     # mocks https://docs.snowflake.com/en/sql-reference/sql/copy-into-table.html#output
     mock_copy_results = [("fakesnow/file0.txt", "LOADED", count, count, 1, 0, None, None, None, None)]
